@@ -23,9 +23,9 @@ func init() { checks["C04"] = runC04 }
 type nullClock struct{}
 type nullTimer struct{}
 
-func (nullTimer) Stop() bool                 { return true }
-func (nullTimer) Reset(time.Duration) bool   { return true }
-func (nullClock) Now() time.Time             { return time.Unix(1_700_000_000, 0) }
+func (nullTimer) Stop() bool                                           { return true }
+func (nullTimer) Reset(time.Duration) bool                             { return true }
+func (nullClock) Now() time.Time                                       { return time.Unix(1_700_000_000, 0) }
 func (nullClock) AfterFunc(time.Duration, func()) collector.VerifTimer { return nullTimer{} }
 
 type c04op struct {
@@ -34,10 +34,10 @@ type c04op struct {
 }
 
 func c04Alphabet() []c04op {
-	tA := []refcodec.FieldSpec{{ID: 7, Len: 2}, {ID: 11, Len: 2}, {ID: 4, Len: 1}}  // srcPort u16, dstPort u16, proto u8 = 5 bytes
+	tA := []refcodec.FieldSpec{{ID: 7, Len: 2}, {ID: 11, Len: 2}, {ID: 4, Len: 1}}                   // srcPort u16, dstPort u16, proto u8 = 5 bytes
 	tAx := []refcodec.FieldSpec{{ID: 7, Len: 2}, {ID: 11, Len: 2}, {ID: 4, Len: 1}, {ID: 5, Len: 1}} // A extended by one trailing field = 6 bytes
-	tB := []refcodec.FieldSpec{{ID: 4, Len: 1}, {ID: 5, Len: 1}, {ID: 2, Len: 8}}   // proto u8, tos u8, packetDeltaCount u64 = 10 bytes
-	tC := []refcodec.FieldSpec{{ID: 82, Len: 65535}, {ID: 8, Len: 4}}              // interfaceName string, sourceIPv4Address
+	tB := []refcodec.FieldSpec{{ID: 4, Len: 1}, {ID: 5, Len: 1}, {ID: 2, Len: 8}}                    // proto u8, tos u8, packetDeltaCount u64 = 10 bytes
+	tC := []refcodec.FieldSpec{{ID: 82, Len: 65535}, {ID: 8, Len: 4}}                                // interfaceName string, sourceIPv4Address
 	// bodies: 10 bytes parse as two A records or one B record, with different values
 	// 30 bytes: six A records, five Ax records or three B records, with different values each way
 	bodyA := []byte{0x12, 0x34, 0x00, 0x50, 0x06, 0xab, 0xcd, 0x01, 0xbb, 0x11, 1, 2, 3, 4, 5, 6, 7, 8, 9, 10, 11, 12, 13, 14, 15, 16, 17, 18, 19, 20}
@@ -201,7 +201,7 @@ func runC04(tier, replay string) int {
 	mkOps := func(c cfgT, ops []c04op, suffix string) *xplore.Config {
 		return &xplore.Config{
 			Name: fmt.Sprintf("%s/%s%s", c.mode, c.proto, suffix), NumOps: len(ops),
-			OpName:  func(i int) string { return ops[i].name },
+			OpName: func(i int) string { return ops[i].name },
 			New: func() xplore.Sys {
 				s := newC04(c.mode, c.proto, ops)
 				s.name += suffix
@@ -283,6 +283,9 @@ func runC04(tier, replay string) int {
 		x.HistDepth, x.StateDepth = histDepth, stateDepth
 		if c.mode != colmodel.Strict && tier != "thorough" {
 			x.HistDepth = 2
+		}
+		if tier == "thorough" && c.proto == "udp" {
+			x.HistDepth = 3 // depth 4 (10 M histories per configuration) is kept for the two tcp configurations
 		}
 		if r.deep {
 			x = mkOps(c, deepOps, "/deep")
